@@ -3,23 +3,24 @@
    Stage 1: the (large, continuation-duplicating) translation of Interval.__new__ is the small function spec_new over the same primitives
    (generic case analysis, nothing matched syntactically).  Stage 2: spec_new is interval_new_delta on the endpoints ep_of.
    obj_ok o: the class tag is 0..3, the value lies in years 1..9999, fold is 0/1, a date carries no tzinfo and sits at midnight, a timezone
-   object has a non-zero identity tag and (FixedTimezone) the table fixed_zone of its offset. *)
+   object has a non-negative identity tag and (FixedTimezone) the table fixed_zone of its offset. *)
 From Coq Require Import ZArith List Bool Lia ZifyBool.
 From PV Require Import Lib.PyBase Spec.Cal Spec.Zone Spec.NativeDT Spec.TdFloat Proofs.CalFacts Proofs.ZoneFacts Model.TzConvert Model.Duration.
-From PV Require Import Model.TzGlueObj Gen.TzGlue Model.WallHistory Proofs.TzGlueFacts Model.IntervalObj Gen.IntervalGlue Model.IntervalLen Proofs.IntervalGlueNew.
+From PV Require Import Model.TzGlueObj Gen.TzGlue Model.WallHistory Proofs.TzGlueFacts Model.IntervalObj Gen.IntervalGlue Model.IntervalLen Proofs.IntervalGlueNew Proofs.IntervalGlueInit.
 Import ListNotations.
 Open Scope Z_scope.
 
 (* ---------- stage 2: that function is interval_new_delta of Model/IntervalLen.v on the endpoints ep_of ---------- *)
-Definition tz_idz (t : option gtz) : Z := match t with Some x => gz_id x | None => 0 end.
+(* identity of the tzinfo object in the model's convention: 0 = None, pendulum.UTC (tag 0 in Model/TzGlueObj.v) = UTC_ID = 1 *)
+Definition tz_idz (t : option gtz) : Z := match t with Some x => gz_id x + 1 | None => 0 end.
 Definition ep_of (o : gobj) : ep :=
   mkep (is_dt o) (negb (is_pdate o)) (tz_idz (o_tz o)) (tz_idz (o_tz o))
        (match o_tz o with Some t => gz_fixed t | None => false end)
        (match o_tz o with Some t => gz_zone t | None => fixed_zone 0 end) (o_wall o) (negb (o_fold o =? 0)).
 Definition obj_ok (o : gobj) : Prop :=
   0 <= o_kind o <= 3 /\ wall_in_range (o_wall o) = true /\ (o_fold o = 0 \/ o_fold o = 1) /\
-  (is_dt o = false -> o_tz o = None /\ o_wall o mod us_per_day = 0) /\
-  (forall t, o_tz o = Some t -> gz_id t <> 0 /\ gtz_ok t).
+  (is_dt o = false -> o_tz o = None /\ o_wall o mod us_per_day = 0 /\ o_fold o = 0) /\
+  (forall t, o_tz o = Some t -> 0 <= gz_id t /\ gtz_ok t).
 
 Lemma o_gdt_dt_of o : o_fold o = 0 \/ o_fold o = 1 -> o_gdt o = dt_of (o_wall o) (negb (o_fold o =? 0)) (o_tz o).
 Proof. intros [H|H]; unfold o_gdt, dt_of; rewrite H; reflexivity. Qed.
@@ -27,14 +28,15 @@ Proof. intros [H|H]; unfold o_gdt, dt_of; rewrite H; reflexivity. Qed.
 Lemma aware_ep o : obj_ok o -> aware (ep_of o) = negb (is_none (o_tz o)).
 Proof.
   intros (_ & _ & _ & _ & T). unfold aware, ep_of, tz_idz. cbn [e_obj]. destruct (o_tz o) as [t|] eqn:E; [|reflexivity].
-  destruct (T t eq_refl) as [N _]. cbn [is_none negb]. destruct (gz_id t =? 0) eqn:Z0; [lia|reflexivity].
+  destruct (T t eq_refl) as [N _]. cbn [is_none negb]. destruct (gz_id t + 1 =? 0) eqn:Z0; [lia|reflexivity].
 Qed.
 Lemma same_tz_ep a b : obj_ok a -> obj_ok b -> same_tz (ep_of a) (ep_of b) = opt_gtz_is (o_tz a) (o_tz b).
 Proof.
   intros (_ & _ & _ & _ & Ta) (_ & _ & _ & _ & Tb). unfold same_tz, ep_of, tz_idz, opt_gtz_is. cbn [e_obj].
   destruct (o_tz a) as [ta|] eqn:Ea; destruct (o_tz b) as [tb|] eqn:Eb; try reflexivity.
-  - destruct (Ta ta eq_refl) as [N _]. destruct (gz_id ta =? 0) eqn:E; [lia|reflexivity].
-  - destruct (Tb tb eq_refl) as [N _]. destruct (0 =? gz_id tb) eqn:E; [lia|reflexivity].
+  - destruct (gz_id ta + 1 =? gz_id tb + 1) eqn:E1; destruct (gz_id ta =? gz_id tb) eqn:E2; lia || reflexivity.
+  - destruct (Ta ta eq_refl) as [N _]. destruct (gz_id ta + 1 =? 0) eqn:E; [lia|reflexivity].
+  - destruct (Tb tb eq_refl) as [N _]. destruct (0 =? gz_id tb + 1) eqn:E; [lia|reflexivity].
 Qed.
 Lemma inst_ep o : obj_ok o -> ep_inst (ep_of o) = o_instant o.
 Proof.
@@ -58,7 +60,7 @@ Proof.
   - unfold o_dt_new, o_year, o_month, o_day, o_hour, o_minute, o_second, o_microsecond.
     rewrite (nat_new_fields (o_gdt o) (o_tz o) (o_fold o) R F). reflexivity.
   - destruct (is_pdate o) eqn:Pd; [|reflexivity].
-    assert (Hd : is_dt o = false) by (unfold is_dt, is_pdt, is_pdate in *; lia). destruct (D Hd) as [_ M].
+    assert (Hd : is_dt o = false) by (unfold is_dt, is_pdt, is_pdate in *; lia). destruct (D Hd) as (_ & M & _).
     unfold o_date_new, o_year, o_month, o_day.
     change (g_year (o_gdt o)) with (gd_year (mkgdate (o_wall o))). change (g_month (o_gdt o)) with (gd_month (mkgdate (o_wall o))).
     change (g_day (o_gdt o)) with (gd_day (mkgdate (o_wall o))). rewrite (date_rebuild (o_wall o) (conj R M)). reflexivity.
@@ -182,4 +184,117 @@ Theorem glue_naive_operand o : wall_in_range (o_wall o) = true ->
 Proof.
   intros R. unfold glue_pendulum_naive_7, glue_pendulum_naive, o_pdt_new, o_year, o_month, o_day, o_hour, o_minute, o_second, o_microsecond.
   rewrite (nat_new_fields (o_gdt o) None 1 R (or_intror eq_refl)). reflexivity.
+Qed.
+
+(* ---------- Interval.__init__ (endpoints, _invert, absolute swap) = the endpoint part of interval_make ---------- *)
+Lemma o_dt_instance_spec o tzarg : obj_ok o ->
+  o_dt_instance o tzarg = o_of_gdt 3 (g_build (opt_tz_or (o_tz o) tzarg) (o_wall o) (negb (o_fold o =? 0)) false).
+Proof.
+  intros (_ & R & F & _). unfold o_dt_instance. rewrite (o_gdt_dt_of o F), (glue_instance_spec _ _ _ _ R). reflexivity.
+Qed.
+
+Lemma b2z_negb_eqb0 f : negb (Z.b2z f =? 0) = f. Proof. destruct f; reflexivity. Qed.
+
+Lemma init_norm_ep o : obj_ok o ->
+  match init_norm o with
+  | Ok (p, n) => instance_ep (ep_of o) = Ok (ep_of p) /\ obj_ok p
+  | Raise e => instance_ep (ep_of o) = Raise e
+  end.
+Proof.
+  intros K. pose proof K as (Kk & R & F & D & T). unfold init_norm, instance_ep. cbn [e_native e_dt ep_of]. rewrite Bool.negb_involutive.
+  destruct (is_pdate o) eqn:Pd; cbn [negb].
+  - (* a pendulum object: kept; the native rebuild always succeeds *)
+    pose proof (native_of_ok o K) as N. unfold native_of in N. rewrite Pd in N.
+    destruct (is_pdt o); rewrite N; cbn [bind]; split; [reflexivity|exact K|reflexivity|exact K].
+  - destruct (is_dt o) eqn:Dt; cbn [negb].
+    + (* a native datetime: DateTime.instance(obj, tz=UTC) *)
+      unfold glue_pendulum_instance. rewrite Pd, Dt. cbn [andb negb]. rewrite (o_dt_instance_spec o (Some g_UTC) K).
+      rewrite (aware_ep o K). cbn [ep_of e_zone e_fixed e_W e_fold e_canon].
+      destruct (o_tz o) as [t|] eqn:Et; cbn [is_none negb opt_tz_or g_build tz_idz].
+      * destruct (T t eq_refl) as [Hid Hok].
+        destruct (create (gz_zone t) (gz_fixed t) (o_wall o) (negb (o_fold o =? 0)) false) as [[W' f']|x] eqn:C; cbn [res_of o_of_gdt bind]; [|reflexivity].
+        split.
+        -- unfold ep_of, is_dt, is_pdate, tz_idz, dt_of. cbn [o_kind o_tz o_wall o_fold g_wall g_fold g_tz Z.eqb Pos.eqb orb negb]. rewrite b2z_negb_eqb0. reflexivity.
+        -- pose proof (create_in_range _ _ _ _ _ _ _ R C) as RC. unfold dt_of. cbn [g_wall g_fold g_tz].
+           repeat split; cbn [o_kind o_wall o_fold o_tz]; try lia; try exact RC; try apply b2z_fold;
+           try (intros H; unfold is_dt in H; cbn [o_kind Z.eqb Pos.eqb orb] in H; discriminate);
+           try (intros t' E; injection E as <-; assumption).
+           all: try (exfalso; match goal with H : is_dt _ = false |- _ => unfold is_dt in H; cbn [o_kind Z.eqb Pos.eqb orb] in H; discriminate end).
+           all: try (match goal with E : o_tz _ = Some _ |- _ => cbn [o_tz] in E end).
+           all: try (match goal with E : Some _ = Some _ |- _ => injection E as <- end; first [assumption | cbn; lia | (intros Hx; discriminate)]).
+      * change (create (gz_zone g_UTC) (gz_fixed g_UTC) (o_wall o) (negb (o_fold o =? 0)) false) with (Ok (o_wall o, negb (o_fold o =? 0)) : result (Z * bool)).
+        cbn [res_of o_of_gdt bind]. split.
+        -- unfold ep_of, is_dt, is_pdate, tz_idz, dt_of. cbn [o_kind o_tz o_wall o_fold g_wall g_fold g_tz Z.eqb Pos.eqb orb negb gz_id gz_fixed gz_zone g_UTC]. rewrite b2z_negb_eqb0. reflexivity.
+        -- unfold dt_of. cbn [g_wall g_fold g_tz].
+           repeat split; cbn [o_kind o_wall o_fold o_tz]; try lia; try exact R; try apply b2z_fold;
+           try (intros H; unfold is_dt in H; cbn [o_kind Z.eqb Pos.eqb orb] in H; discriminate);
+           try (intros t' E; injection E as <-; cbn; lia);
+           try (intros t' E; injection E as <-; intros H; discriminate).
+           all: try (exfalso; match goal with H : is_dt _ = false |- _ => unfold is_dt in H; cbn [o_kind Z.eqb Pos.eqb orb] in H; discriminate end).
+           all: try (match goal with E : o_tz _ = Some _ |- _ => cbn [o_tz] in E end).
+           all: try (match goal with E : Some _ = Some _ |- _ => injection E as <- end; first [assumption | cbn; lia | (intros Hx; discriminate)]).
+    + (* a native date: pendulum.date(y, m, d) *)
+      destruct (D eq_refl) as (Tz & M & Fo). unfold glue_pendulum_date, o_pdate_new, o_year, o_month, o_day.
+      change (g_year (o_gdt o)) with (gd_year (mkgdate (o_wall o))). change (g_month (o_gdt o)) with (gd_month (mkgdate (o_wall o))).
+      change (g_day (o_gdt o)) with (gd_day (mkgdate (o_wall o))). rewrite (date_rebuild (o_wall o) (conj R M)). cbn [o_of_gdate bind gd_wall].
+      split.
+      * unfold ep_of, is_dt, is_pdate, tz_idz. cbn [o_kind o_tz o_wall o_fold Z.eqb Pos.eqb orb negb e_zone e_W e_fold]. rewrite Tz, Fo. reflexivity.
+      * repeat split; cbn [o_kind o_wall o_fold o_tz]; try lia; try exact R; try exact M; auto; match goal with E : o_tz _ = Some _ |- _ => cbn [o_tz] in E; discriminate end.
+Qed.
+
+(* the endpoint part of Model/IntervalLen.v interval_make *)
+Definition iv_endpoints (a b : ep) (absolute : bool) : result (bool * ep * ep) :=
+  bind (instance_ep a) (fun a' => bind (instance_ep b) (fun b' => bind (py_gt a' b') (fun inv =>
+  if inv && absolute then Ok (inv, b', a') else Ok (inv, a', b')))).
+
+Lemma interval_make_unfold a b abs :
+  interval_make a b abs =
+  bind (interval_new_delta a b abs) (fun D => bind (duration_of_float_seconds (total_seconds D)) (fun d =>
+  bind (iv_endpoints a b abs) (fun '(inv, s, e) => Ok (mkival d inv s e abs)))).
+Proof.
+  unfold interval_make, iv_endpoints. destruct (interval_new_delta a b abs); cbn [bind]; [|reflexivity].
+  destruct (duration_of_float_seconds _); cbn [bind]; [|reflexivity].
+  destruct (instance_ep a); cbn [bind]; [|reflexivity]. destruct (instance_ep b); cbn [bind]; [|reflexivity].
+  destruct (py_gt _ _) as [inv|]; cbn [bind]; [|reflexivity]. destruct (inv && abs); reflexivity.
+Qed.
+
+Definition init_image (r : result (bool * gobj * gobj * gobj * gobj)) : result (bool * ep * ep) :=
+  match r with Ok (inv, s, e, _, _) => Ok (inv, ep_of s, ep_of e) | Raise x => Raise x end.
+
+Theorem glue_init_endpoints a b abs : obj_ok a -> obj_ok b ->
+  init_image (glue_Interval_init a b abs) = iv_endpoints (ep_of a) (ep_of b) abs.
+Proof.
+  intros Ka Kb. rewrite glue_init_is_spec. unfold spec_init, iv_endpoints.
+  pose proof (init_norm_ep a Ka) as Ha. pose proof (init_norm_ep b Kb) as Hb.
+  destruct (init_norm a) as [[s s_]|x]; [destruct Ha as [Ea Ks]|]; [|rewrite Ha; reflexivity]. rewrite Ea. cbn [bind].
+  destruct (init_norm b) as [[e e_]|x]; [destruct Hb as [Eb Ke]|]; [|rewrite Hb; reflexivity]. rewrite Eb. cbn [bind].
+  rewrite (py_gt_ep s e Ks Ke). destruct (obj_gt s e) as [inv|x]; cbn [bind init_image]; [|reflexivity].
+  destruct (inv && abs); reflexivity.
+Qed.
+
+(* Interval(a, b, absolute) as a whole record of the model: __new__'s delta, the Duration built from it, __init__'s endpoints and _invert *)
+Theorem glue_interval_make a b abs : obj_ok a -> obj_ok b ->
+  interval_make (ep_of a) (ep_of b) abs =
+  bind (glue_Interval_new_delta a b abs) (fun D => bind (duration_of_float_seconds (total_seconds D)) (fun d =>
+  bind (init_image (glue_Interval_init a b abs)) (fun '(inv, s, e) => Ok (mkival d inv s e abs)))).
+Proof. intros Ka Kb. rewrite interval_make_unfold, (glue_interval_new a b abs Ka Kb), (glue_init_endpoints a b abs Ka Kb). reflexivity. Qed.
+
+(* ---------- the component properties = Model/PdInterval.v iv_components ---------- *)
+From PV Require Import Model.PdBase Model.PdInterval.
+(* Duration._days of the elapsed Duration (duration.py: self._days = abs(total seconds) // 86400 * sign), the value Interval.remaining_days reads *)
+Definition dur_days_of (elapsed : Z) : Z := Z.abs elapsed / 1000000 / 86400 * sgn elapsed.
+
+Theorem glue_interval_components delta elapsed :
+  let g := mkgivs delta (dur_days_of elapsed) in let c := iv_components delta elapsed in
+  glue_Interval_years g = iv_years c /\ glue_Interval_months g = iv_months c /\ glue_Interval_weeks g = iv_weeks c /\
+  glue_Interval_remaining_days g = iv_remaining_days c /\ glue_Interval_hours g = iv_hours c /\ glue_Interval_minutes g = iv_minutes c /\
+  glue_Interval_in_months g = iv_in_months c /\ glue_Interval_in_days g = iv_in_days c /\ glue_Interval_in_years g = iv_years c /\
+  glue_Interval_in_weeks g = Z.abs (iv_in_days c) / 7 * sgn (iv_in_days c).
+Proof.
+  cbv zeta. unfold iv_components. cbv zeta. cbn [iv_years iv_months iv_weeks iv_remaining_days iv_hours iv_minutes iv_in_months iv_in_days].
+  unfold glue_Interval_years, glue_Interval_months, glue_Interval_weeks, glue_Interval_remaining_days, glue_Interval_hours, glue_Interval_minutes,
+         glue_Interval_in_months, glue_Interval_in_days, glue_Interval_in_years, glue_Interval_in_weeks, glue_Interval_years, glue_Interval_months, glue_Interval_in_days.
+  cbn [gi_delta gi_days]. unfold g_sign, sgn, dur_days_of, sgn.
+  repeat split; try reflexivity; cbv zeta; try (change Gen.Constants.C_MONTHS_PER_YEAR with 12; reflexivity);
+  destruct (pd_total_days delta <? 0); lia.
 Qed.
